@@ -75,12 +75,14 @@ func parseTerm(l *lexer, t token) (idempotent bool, typ termType, err error) {
 	case tkLcurly: // Set, map, or UDT literal
 		if t = l.next(); t == tkIdentifier { // maybe UDT
 			l.mark()
+			id := l.id // The look-ahead can lex another identifier, the current one is restored when rewinding
 			var maybeColon token
 			_, _, maybeColon, err = parseQualifiedIdentifier(l)
 			if err != nil {
 				return false, termSetMapUdtLiteral, err
 			}
 			l.rewind()
+			l.id = id
 			if tkColon == maybeColon { // UDT
 				return parseUDTTerm(l, t)
 			} else { // Set or map (probably starting with a function)
